@@ -317,6 +317,18 @@ def gen_config(rng, opts=None):
                     m[ph] = {'fid': '%s.%s' % (mid, ph), 'form': 'function', 'params': [['next', 'req']]}
                 smws.append(m)
             sibs.append({'mws': smws, 'embedded': rng.chance(0.4)})
+        # a sibling's middleware may provide a name that functions of the real route merely mention (a defaulted parameter
+        # nobody on the real route's own stack offers): what a sibling's middleware offers stays with the sibling
+        pbs_all = set(b for l in levels for b in l.get('prefix_bindings') or [])
+        free = sorted(n for n in mentioned if n in NAMES and n not in used and n not in pbs_all)
+        rng.shuffle(free)
+        for sb in sibs:
+            if free and rng.chance(0.6):
+                m = sb['mws'][0]
+                if m['request'] is None:
+                    m['request'] = {'fid': '%s.request' % m['mid'], 'form': 'function', 'params': [['next', 'req']]}
+                m['provides'] = [free.pop()]
+                route['sibling_provides'] = True
         route['siblings'] = sibs
     if opts.get('decoys', False) and rng.chance(0.6):
         # names the real route may receive from route-level sources (or defaults), never from a level:
